@@ -60,7 +60,8 @@ GInit(A) == [bal     |-> [a \in A |-> 0],
              idok    |-> [a \in A |-> TRUE],
              ct      |-> TRUE,
              cc      |-> TRUE,
-             rec     |-> [a \in A |-> NoOne]]
+             rec     |-> [a \in A |-> NoOne],
+             evbal   |-> [a \in A |-> 0]]          \* balances replayed from the emitted mint / burn / transfer events
 
 Accts(g) == DOMAIN g.bal
 
@@ -81,7 +82,7 @@ Setters        == {"set_id", "set_ct", "set_cc", "set_rec"}
 \* (any value between "as if debited" and "untouched"), and the address-freeze flags around a
 \* recovery that the property does not determine (the old account's flag; the target's flag when
 \* there was nothing to recover).
-GNext(g, ev) ==
+GNext0(g, ev) ==
   LET o == ev.op  k == o.op IN
   IF ev.res # "ok" THEN g ELSE
   CASE k = "mint"     -> [g EXCEPT !.bal[o.to] = @ + o.amt, !.supply = @ + o.amt]
@@ -117,6 +118,16 @@ GNext(g, ev) ==
     [] k = "set_rec"    -> [g EXCEPT !.rec[o.from] = o.to]
     [] OTHER            -> g
 
+\* replaying the token's emitted mint, burn and transfer events (ev.evs: sequence of [k, f, t, x])
+RECURSIVE Replay(_, _)
+Replay(b, evs) ==
+  IF evs = << >> THEN b
+  ELSE LET e == Head(evs)
+           b1 == IF e.k \in {"transfer", "burn"} /\ e.f \in DOMAIN b THEN [b EXCEPT ![e.f] = @ - e.x] ELSE b
+           b2 == IF e.k \in {"transfer", "mint"} /\ e.t \in DOMAIN b1 THEN [b1 EXCEPT ![e.t] = @ + e.x] ELSE b1
+       IN Replay(b2, Tail(evs))
+GNext(g, ev) == [GNext0(g, ev) EXCEPT !.evbal = Replay(g.evbal, ev.evs)]
+
 (* compliance call log ------------------------------------------------------*)
 Call(k, from, to, amt) == [k |-> k, from |-> from, to |-> to, amt |-> amt, tok |-> TRUE]
 IsHook(c)  == c.k \in {"transferred", "created", "destroyed"}
@@ -126,10 +137,10 @@ Asked(cs, c) == \E i \in DOMAIN cs : cs[i] = c
 (* monitors ---------------------------------------------------------------*)
 Monitors == {"C04_gates", "C04_frozen_inv", "C04_supervisory_min", "C04_recovery",
              "C04_compliance_log", "C04_auth", "C04_gate_state",
-             "C01_rwa_sum", "C01_rwa_delta", "C01_rwa_fail",
+             "C01_rwa_sum", "C01_rwa_delta", "C01_rwa_fail", "C01_rwa_events",
              "C02_rwa_debit", "C02_rwa_allow"}
 
-PropOf(m) == CASE m \in {"C01_rwa_sum", "C01_rwa_delta", "C01_rwa_fail"} -> "C01"
+PropOf(m) == CASE m \in {"C01_rwa_sum", "C01_rwa_delta", "C01_rwa_fail", "C01_rwa_events"} -> "C01"
                [] m \in {"C02_rwa_debit", "C02_rwa_allow"}               -> "C02"
                [] OTHER                                                  -> "C04"
 
@@ -172,6 +183,7 @@ Ante(m, g, ev) ==
     [] m = "C01_rwa_sum"         -> TRUE
     [] m = "C01_rwa_delta"       -> ok
     [] m = "C01_rwa_fail"        -> ~ok
+    [] m = "C01_rwa_events"      -> TRUE
     [] m = "C02_rwa_debit"       -> \E a \in Accts(g) : ev.obs.bal[a] < g.bal[a]
     [] m = "C02_rwa_allow"       -> TRUE
 
@@ -224,6 +236,8 @@ Cons(m, g, ev) ==
     [] m = "C01_rwa_delta" ->
          /\ obs.supply = n.supply
          /\ (o.op # "recover" => \A a \in A : obs.bal[a] = n.bal[a])
+    \* replaying the emitted mint / burn / transfer events from genesis reproduces every balance
+    [] m = "C01_rwa_events" -> \A a \in A : Replay(g.evbal, ev.evs)[a] = obs.bal[a]
     [] m = "C01_rwa_fail" ->
          /\ obs.supply = g.supply
          /\ \A a \in A : obs.bal[a] = g.bal[a] /\ obs.frozen[a] = g.frozen[a]
@@ -251,7 +265,7 @@ Key(m, g, ev) ==
      ELSE IF "frozen_tokens" \in f THEN "frozen_tokens" ELSE IF "identity" \in f THEN "identity"
      ELSE IF "compliance" \in f THEN "compliance" ELSE "none")
   ELSE IF m \in {"C04_frozen_inv", "C04_compliance_log", "C04_gate_state", "C01_rwa_fail", "C02_rwa_debit",
-                 "C02_rwa_allow", "C01_rwa_delta", "C01_rwa_sum"}
+                 "C02_rwa_allow", "C01_rwa_delta", "C01_rwa_sum", "C01_rwa_events"}
   THEN ev.op.op
   ELSE "other"
 
